@@ -388,7 +388,7 @@ func c17Tree(r *gen.Rand) []world.File {
 	if len(fs) == 0 {
 		fs = append(fs, world.File{Name: "only", Data: []byte("x")})
 	}
-	if r.Chance(1, 5) { // many siblings, names of very different lengths
+	if r.Chance(1, 3) { // many siblings, names of very different lengths
 		for i := 0; i < 40; i++ {
 			name := fmt.Sprintf("s%03d", i)
 			if r.Bool() {
@@ -413,11 +413,12 @@ func init() {
 		c.CaseTy = "mcase"
 		c.Report = "report"
 		c.PerFile = 6
-		c.Rule = "bundles of 1..14 files (sometimes plus 40 siblings) in directories nested up to five deep, names that are prefixes of one another, files of 0, 1, 10, 64, 65, 130 and 200 bytes with 64-byte leaves; mounted read-only streamed and pre-downloaded; 15..30 operations: lookups of present and absent names in present directories (with attributes by inode), directory listings read through buffers of 96..4096 bytes (never smaller than one entry) and resumed at the last offset returned, reads at offsets and lengths inside, across and beyond the end of the file; non-trivial = case with a listing that needed more than one chunk, distinct by files and operations"
+		c.Rule = "bundles of 1..14 files (sometimes plus 40 siblings) in directories nested up to five deep, names that are prefixes of one another, files of 0, 1, 10, 64, 65, 130 and 200 bytes with 64-byte leaves; mounted read-only streamed and pre-downloaded; 15..30 operations: lookups of present and absent names in present directories (with attributes by inode), directory listings read through buffers of 96..4096 bytes (never smaller than one entry) and resumed at the last offset returned, reads at offsets and lengths inside, across and beyond the end of the file; non-trivial = case with a listing that needed more than one chunk or a read that took bytes of two leaves, distinct by files and operations"
 		emit := func(cs *c17Case) {
 			key := ""
 			for _, o := range cs.Ops {
-				if o.Kind == "readdir" && len(o.Chunks) > 2 {
+				crosses := o.Kind == "read" && len(o.Data) > 0 && o.Off/64 != (o.Off+len(o.Data)-1)/64 // bytes of two leaves in one read
+				if (o.Kind == "readdir" && len(o.Chunks) > 2) || crosses {
 					j, _ := json.Marshal([]interface{}{cs.Files, cs.Streamed, len(cs.Ops)})
 					key = string(j)
 					if len(key) > 300 {
@@ -495,7 +496,7 @@ func init() {
 					}
 					cs.Ops = append(cs.Ops, c17Op{Kind: "lookup", Dir: d, Name: name})
 				case 1:
-					cs.Ops = append(cs.Ops, c17Op{Kind: "readdir", Dir: dirs[r.Intn(len(dirs))], Buf: []int{r.Range(96, 400), r.Range(100, 1024), 4096}[r.Intn(3)]})
+					cs.Ops = append(cs.Ops, c17Op{Kind: "readdir", Dir: dirs[r.Intn(len(dirs))], Buf: []int{r.Range(96, 160), r.Range(96, 400), r.Range(100, 1024), 4096}[r.Intn(4)]})
 				default:
 					f := cs.Files[r.Intn(len(cs.Files))]
 					d, name := "", f.Name
